@@ -56,6 +56,10 @@ var genRefused = rapid.Custom(func(t *rapid.T) string {
 		// accepted-looking but with a line break: the pattern's '.' does not cross it
 		return rapid.SampledFrom([]string{"1\n", "a\nb", "0\n0", "+1\n"}).Draw(t, "nl")
 	}
+	if chancePct(t, 10, "customnear") {
+		// near misses of the additional format #<1..3 digits>
+		return []string{"#", "#1234", "#a", "# 1", "##1", "#1\n", "#12a"}[uniformN(t, 7, "customnearv")]
+	}
 	return rapid.SampledFrom([]string{"!x", " 1", "\n", "+", "+!", "\x001", "\xff\xfe", "-1", "#", "_", ".", "*", "<", ">", "^", "{{", " ", "  ", "\t", " \n", "\r\n"}).Draw(t, "refused")
 })
 
@@ -380,6 +384,7 @@ var _ = registerReplay("C17", "meta", checkC17)
 var _ = registerReplay("C17", "flush", checkC17Flush)
 
 func TestC17(t *testing.T) {
+	enableCustomInputFormat()
 	runKnownExamples(t, "C17")
 	RunProp(t, "C17", "meta", pick(1500, 15000), genC17, checkC17)
 	if t.Failed() {
